@@ -6,7 +6,7 @@ PID = 'C08'
 LEVEL = 'exploration'
 ENGINE = 'E1'
 TECHNIQUE = 'bounded exhaustive enumeration (full altitude grid, station x query grid incl. both sides of the 30-ft shortcut, full T x P x humidity grid) against an independent ISO 2533 model and monotonicity along every grid line'
-RULE = ('isa cells = every altitude -1400..36000 ft step 100 ft (thorough 25 ft); station cells = stations {-1000,0,5000,15000,30000 ft} x '
+RULE = ('isa cells = every altitude -1400..36000 ft step 100 ft (thorough 25 ft); station cells = {standard, hot-humid, cold, -60 C, +60 C-saturated} stations at {-1000,0,5000,15000,30000 ft} x '
         'query every 250 ft plus offsets {0,+-1,+-29.999,+-30,+-30.001} around the station, standard and two non-standard stations; '
         'history cells = every sequence of <= 3 (thorough 4) operations over {query near/100 ft/5000 ft away, set humidity 0/0.5/100 %, set invalid humidity} on a live atmosphere, compared after every step with a freshly built one; grid cells = T -60..60 C step 10 x P 500..1100 hPa step 100 x humidity {0,.25,.5,.75,1}; non-trivial = query altitude differs '
         'from the station / grid cell with all three neighbours present')
@@ -63,7 +63,7 @@ def isa_cell(cell):
     return {'v': out[:4], 'n': 6, 'nt': hft if hft != 0 else None, 'extra': {'max_isa_rel_err': worst}}
 
 
-STATIONS = {'std': None, 'hot': (28.0, 95.0, 60), 'cold': (31.0, -20.0, 10)}
+STATIONS = {'std': None, 'hot': (28.0, 95.0, 60), 'cold': (31.0, -20.0, 10), 'frigid': (29.0, -76.0, 0), 'torrid': (29.5, 140.0, 100)}   # inHg, deg F (-60 C / +60 C: the corners of the domain), % humidity
 
 
 def _station(kind, a0):
@@ -280,7 +280,7 @@ def plan(tier):
     alts = list(range(-1400, 36001, step))
     st = []
     stations = [-1000, 0, 5000, 15000, 30000]
-    for kind in ('std', 'hot', 'cold'):
+    for kind in ('std', 'hot', 'cold', 'frigid', 'torrid'):
         for a0 in stations:
             qs = set(float(a0 + o) for o in OFFS)
             if kind == 'std' or tier == 'thorough':
